@@ -2,7 +2,7 @@
    Statements only; each is closed by [exact] of a lemma proved in Strconv/*Proofs.v. *)
 From Coq Require Import Reals Floats.SpecFloat.
 From Flocq Require Import Core.Core IEEE754.BinarySingleNaN.
-From Verif Require Import Common.Base Strconv.Model Strconv.FModel Strconv.IntProofs Strconv.NumProofs Strconv.DecProofs Strconv.ScanProofs Strconv.FloatProofs Strconv.DecValueProofs Strconv.DecSideProofs Strconv.AccuracyProofs Strconv.AFProofs Strconv.AFShape Strconv.AFValueProofs Strconv.Legacy.
+From Verif Require Import Common.Base Strconv.Model Strconv.FModel Strconv.IntProofs Strconv.NumProofs Strconv.DecProofs Strconv.ScanProofs Strconv.FloatProofs Strconv.DecValueProofs Strconv.DecSideProofs Strconv.AccuracyProofs Strconv.AFProofs Strconv.AFLitProofs Strconv.AFShape Strconv.AFValueProofs Strconv.Legacy.
 Open Scope Z_scope.
 
 (* ParseInt, for EVERY byte string: written as sign ++ digits ++ rest (sign = "", "+" or "-";
@@ -162,22 +162,38 @@ Print Assumptions parse_float_exact_fastpath_partial.
 (* AppendFloat's layout (everything after mant := int64(f)), for EVERY mantissa 1 <= mant < 10^19, every
    adjusted precision in [-350, 350] (AppendFloat reaches [-331, 348]), either sign, every destination and
    every content of its spare capacity: the destination is preserved and what is appended is a well-formed
-   literal  -? (digits [. digits] | . digits) [e -? digits]  with '-' exactly for a negative argument.
-   (Lockstep argument: the layout follows digit for digit that of the canonical mantissa 1..10..0 with the same
-   length and trailing zeros, which is computed for all 190 shapes x 701 precisions x 2 signs.) *)
+   literal  -? (digits [. digits] | . digits) [e -? digits]  with '-' exactly for a negative argument, and the
+   literal DENOTES mant * 10^-prec: read as a decimal literal (lit_mant_exp: integer and fraction digits as one
+   integer, exponent minus the number of fraction digits) its unsigned part is (q * 10^bb, t0 - prec - bb) with
+   mant = q * 10^t0, i.e. the trailing zeros of mant that are not written are compensated in the exponent and the
+   zeros that are appended (the exp == 1 / exp == 2 shortcuts, d.d -> dd0 included) are taken back from it.
+   (Lockstep argument: the layout is that of a run on the canonical mantissa 1..10..0 with the same length and
+   trailing zeros in which the digit cells hold the tag of the digit's position instead of the digit; these tagged
+   runs are computed for all 190 shapes x 701 precisions x 2 signs and compared with the expected form
+   [-] zeros, tags L-1 .. t0 in this order, zeros, with the dot and the exponent in the right place.) *)
 Theorem append_float_layout : forall b spare neg mant prec, 1 <= mant < 10 ^ 19 -> -350 <= prec <= 350 ->
-  exists out, af_print b spare neg mant prec = Ok (b ++ out) /\ float_literal neg out.
-Proof. exact af_print_shape_proof. Qed.
+  exists out, af_print b spare neg mant prec = Ok (b ++ out) /\ float_literal neg out /\ lit_neg out = neg /\
+    exists q t0 bb, 0 <= t0 /\ 0 <= bb /\ mant = q * 10 ^ t0 /\ lit_mant_exp (lit_body out) = (q * 10 ^ bb, t0 - prec - bb).
+Proof. exact af_print_value_proof. Qed.
 Print Assumptions append_float_layout.
+
+(* what lit_value computes, on the parts of a literal: sign * (integer and fraction digits as one integer) *
+   10^(exponent - number of fraction digits) *)
+Theorem literal_value_spec : forall (neg : bool) ip fp ex, all_digits ip -> all_digits fp ->
+  (ex = [] \/ exists ds, all_digits ds /\ ds <> [] /\ (ex = 101 :: ds \/ ex = 101 :: 45 :: ds)) ->
+  (ip <> [] \/ fp <> []) ->
+  lit_value ((if neg then [45] else []) ++ ip ++ (match fp with [] => [] | _ => 46 :: fp end) ++ ex) =
+  ((if neg then -1 else 1) * IZR (dec_value (ip ++ fp)) * Rp10 (exp_value ex - len fp))%R.
+Proof. exact lit_value_parts. Qed.
+Print Assumptions literal_value_spec.
 
 (* AppendFloat, PARTIAL: for every float64 (valid_binary; every bit pattern, see [float64_bits_valid]): nothing is
    appended for NaN and the infinities; for a finite f whose scaled mantissa int64(|f| * 10^prec') fits int64
    (0 <= af_mant) the destination is preserved and what is appended is "0" when the mantissa is 0 and otherwise a
    well-formed literal carrying '-' exactly when f < 0.
-   MISSING: (i) that the scaled mantissa fits int64 for every finite f (it does on every case of the bit-for-bit
-   correspondence and of the search); (ii) that the digits are those of f truncated to prec+1 significant digits
-   (parse-back clause): search only, with two listed classes of failing inputs (subnormal f, the three float64
-   around a power of ten). *)
+   MISSING here: (i) that the scaled mantissa fits int64 and (ii) the parse-back clause; both are proved for every
+   NORMAL float64 by append_float_normal below.  For the subnormal f (listed finding class "subnormal") they stay
+   search only. *)
 Theorem append_float_shape_partial : forall b spare f prec, valid_binary 53 1024 f = true ->
   (f_finite f = false -> append_float b spare f prec = Ok b) /\
   (f_finite f = true ->
@@ -398,24 +414,27 @@ Print Assumptions parse_decimal_accuracy_trunc_frac.
 
 (* AppendFloat for EVERY normal float64 (valid_binary, exponent field not 0; the subnormal numbers are the listed
    finding class "subnormal"), every prec, destination and spare capacity.  With p' the adjusted precision
-   (prec - exp10 after the correction of 4092954) and mant = int64(|f| * 10^p') the scaled mantissa:
+   (prec - exp10 after the correction of 4092954; the number of decimals kept) and mant = int64(|f| * 10^p') the
+   scaled mantissa:
    (1) mant fits int64: 0 <= mant < 10^19  (this closes the side condition of append_float_shape_partial);
-   (2) mant * 10^-p' is |f| truncated at the last requested digit, up to the binary64 noise of the scaling:
-       |mant * 10^-p' - |f|| <= 10^-p' + 5 * 2^-51 * |f|;
-   (3) the destination is preserved and what is appended is "0" when mant = 0 and otherwise a well-formed literal
-       with '-' exactly when f < 0.
-   MISSING for the property's parse-back clause: that the literal printed by the layout denotes exactly mant * 10^-p'
-   (the digits of mant with the dot/exponent placed by p'): proved only in shape (append_float_layout), tied by the
-   bit-for-bit correspondence and checked by the big-rational oracle; and that p' gives exactly prec+1 significant
-   digits, which fails by one digit on the listed class "pow10-boundary" (|f| next to a power of ten). *)
-Theorem append_float_normal_partial : forall b spare f prec, valid_binary 53 1024 f = true -> f_normal f = true ->
+   (2) the destination is preserved and what is appended is "0" when mant = 0 and otherwise a well-formed literal
+       with '-' exactly when f < 0;
+   (3) read back as a decimal literal (lit_value, see literal_value_spec) the output is exactly +-mant * 10^-p';
+   (4) hence it parses back to the argument within the requested number of digits, truncating:
+       |lit_value out - f| <= 10^-p' + 5 * 2^-51 * |f|   (one unit of the last digit kept, plus the binary64 noise
+       of the scaling f * 10^p').
+   Exceptions, both keyed finding classes: "subnormal" (outside the hypothesis f_normal) and "pow10-boundary": for
+   the three float64 around a power of ten whose float64 lies below 10^m, p' is one less than prec + 1 significant
+   digits would need, so the theorem holds there with one digit fewer than asked (AppendFloat(1e23,3) = "9.99e22"). *)
+Theorem append_float_normal : forall b spare f prec, valid_binary 53 1024 f = true -> f_normal f = true ->
   let neg := flt f fzero in
   let g := if neg then fneg f else f in
   let p' := af_prec g prec in
   let mant := af_mant g prec in
   0 <= mant < 10 ^ 19 /\
-  (Rabs (IZR mant * Rp10 (- p') - Rabs (SF2R radix2 f)) <= Rp10 (- p') + 5 * uu * Rabs (SF2R radix2 f))%R /\
   exists out, append_float b spare f prec = Ok (b ++ out) /\
-              (mant = 0 -> out = [48]) /\ (0 < mant -> float_literal neg out).
-Proof. exact append_float_normal_proof. Qed.
-Print Assumptions append_float_normal_partial.
+              (mant = 0 -> out = [48]) /\ (0 < mant -> float_literal neg out) /\
+              lit_value out = ((if neg then - IZR mant else IZR mant) * Rp10 (- p'))%R /\
+              (Rabs (lit_value out - SF2R radix2 f) <= Rp10 (- p') + 5 * uu * Rabs (SF2R radix2 f))%R.
+Proof. exact append_float_parse_back_proof. Qed.
+Print Assumptions append_float_normal.
